@@ -324,7 +324,7 @@ def is_subseq(small, big):
     return all(any(x == y for y in it) for x in small)
 
 
-MAX_WAVES = 4          # shrinking effort is bounded: a defect that hits most blocks must not stall the check
+MAX_WAVES = 2          # shrinking effort is bounded: a defect that hits most blocks must not stall the check
 MAX_LISTED = 40        # replay files written per run (every violating case is still counted in the evidence)
 
 
@@ -344,7 +344,7 @@ def label(viol):
                 hit = [m for m in mins.get(cl, []) if is_subseq(m, toks)]
                 if hit:
                     lab[cid] = " ".join(min(hit, key=lambda m: (len(m), m)))
-                elif per_class.get(cl, 0) < 6 and len(wave) < 24:
+                elif per_class.get(cl, 0) < 4 and len(wave) < 12:
                     per_class[cl] = per_class.get(cl, 0) + 1
                     wave.append((cid, toks, p, cl))
             if not wave or _wave == MAX_WAVES:
@@ -384,7 +384,15 @@ def settle(viol):
         k, e = info[c["id"]]
         return {"block": c["_text"], "plain": c["_plain"], "policy": sorted(e["policies"]), "clause": e["verdict"][1],
                 "position": e["verdict"][0], "minimal_block": e["min"], "subs": c["subs"], "cases_this_run": e["n"], "key": k}
-    out = findings.settle("C14", items, describe)
+    def keys(c):
+        k, e = info[c["id"]]
+        toks = c["_text"].split()
+        ks = [k]
+        # input class: a block-ending instruction (SELFDESTRUCT) followed by further instructions (dead code)
+        if "SELFDESTRUCT" in toks[:-1] and "rebuild raised" in k:
+            ks.append("rebuild raised | block-ending instruction inside the block")
+        return ks
+    out = findings.settle("C14", items, describe, keys)
     summary = [{"key": k, "policies": sorted(e["policies"]), "cases": e["n"], "example": e["case"]["_text"][:200],
                 "clause": e["verdict"][1]} for k, e in order[:MAX_LISTED]]
     rest = order[MAX_LISTED:]
